@@ -1631,6 +1631,67 @@ def comp_fold(prop, tier, comp, work):
 
 
 # --------------------------------------------------------------------------------------------
+# R-MEMCOPY (C20, C19): inside a copy-assignment operator or copy constructor taking `other`, a store into member M
+# of *this (this.M, at(this.M,i), this.M[i]) whose value is read from `other` reads the SAME member: other.M.
+# ("strides_[i] = other.shape_[i]" is the slip.)  Also: operator= does not modify *this before it first reads `other`
+# (self-assignment safety).  Template definitions of ndarray/, utl/ and view/.
+# --------------------------------------------------------------------------------------------
+def rule_memcopy(rows, prop, files):
+    findings, samples, n = [], [], 0
+    for r in rows:
+        if "fn" not in r or r.get("lambda"):
+            continue
+        if not any(x in r["file"] for x in files):
+            continue
+        short = r["fn"].split("::")[-1]
+        pnames = [p_["name"] for p_ in r["params"]]
+        is_assign = short == "operator=" and pnames == ["other"]
+        is_cctor = r.get("class") and pnames == ["other"] and (short == r["class"].split("::")[-1] or short.startswith(r["class"].split("::")[-1] + "<"))
+        if not (is_assign or is_cctor):
+            continue
+        first_other = None
+        for f in r["facts"]:
+            if "$other" in f["a"] + f["b"] and f.get("line") is not None:
+                first_other = f["line"] if first_other is None else min(first_other, f["line"])
+        for f in r["facts"]:
+            if f["k"] == "assign":
+                ml = re.match(r"(?:nmtools::)?(?:at\()?this\.(\w+)", f["a"])
+                if not ml:
+                    continue
+                mr = re.findall(r"\$other\.(\w+)", f["b"])
+                if mr:
+                    n += 1
+                    if any(x != ml.group(1) for x in mr):
+                        findings.append(finding("R-MEMCOPY", prop, r, "%s = %s" % (f["a"], f["b"]), "member '%s' of *this is copied from member(s) %s of other" % (ml.group(1), mr), f.get("line")))
+                    elif len(samples) < 3:
+                        samples.append("R-MEMCOPY %s: %s = %s" % (r["fn"].split("::")[-2] if "::" in r["fn"] else r["fn"], f["a"], f["b"]))
+                elif is_assign and first_other is not None and f.get("line") is not None and f["line"] < first_other and f["c"] == "=":
+                    n += 1
+                    findings.append(finding("R-MEMCOPY.selfassign", prop, r, "%s = %s" % (f["a"], f["b"]), "operator= writes member '%s' of *this before it first reads `other`: x = x then sees the modified object (self-assignment is not harmless)" % ml.group(1), f.get("line")))
+            elif f["k"] == "ctorinit" and is_cctor:
+                mr = re.findall(r"\$other\.(\w+)", f["b"])
+                if mr:
+                    n += 1
+                    if any(x != f["a"] for x in mr) and f["a"] != "<base>":
+                        findings.append(finding("R-MEMCOPY", prop, r, "%s(%s)" % (f["a"], f["b"]), "member '%s' is copy-initialised from member(s) %s of other" % (f["a"], mr)))
+    return findings, n, samples
+
+
+def comp_memcopy(prop, tier, comp, work):
+    t0 = time.time()
+    dirs = comp.get("dirs", ["nmtools/array/ndarray", "nmtools/utl"])
+    tu, nn = gen_umbrella(dirs, work, "umb_mc.cpp", extra_lines=['#include "nmtools/array/eval/kernel_helper.hpp"'] if "nmtools/array/ndarray" in dirs else [])
+    files = ["include/" + d + "/" for d in dirs] + (["kernel_helper.hpp"] if "nmtools/array/ndarray" in dirs else [])
+    rows, err, cmd = run_nmlint(tu, filters=files)
+    out = dict(broken=[], units=nn, functions=len(rows), cmd=cmd)
+    if err:
+        out["broken"].append(err); return out
+    f, n, samples = rule_memcopy(rows, prop, files)
+    out.update(findings=f, instances={"R-MEMCOPY": n}, evaluations=n, distinct_nontrivial=n - len(f), samples=samples, wall_s=round(time.time() - t0, 2))
+    return out
+
+
+# --------------------------------------------------------------------------------------------
 # driver
 # --------------------------------------------------------------------------------------------
 def run(prop, tier, spec, jobs=16):
@@ -1670,4 +1731,4 @@ def comp_fwd_array(prop, tier, comp, work):
     return out
 
 
-RULES = {"R-FWD.array": comp_fwd_array, "R-FWD.functional": comp_fwd_functional, "R-UFUNC": comp_ufunc, "R-KSIB": comp_ksib, "R-SIMD": comp_simd, "R-CONSTBRANCH": comp_constbranch, "R-TRAITPROV": comp_traitprov, "R-MAYBE-DIV": comp_maybe_div, "R-OWN": comp_own, "R-EVAL": comp_eval, "R-EQSHAPE": comp_eqshape, "R-PAIR": comp_pair, "R-FOLD": comp_fold}
+RULES = {"R-FWD.array": comp_fwd_array, "R-FWD.functional": comp_fwd_functional, "R-UFUNC": comp_ufunc, "R-KSIB": comp_ksib, "R-SIMD": comp_simd, "R-CONSTBRANCH": comp_constbranch, "R-TRAITPROV": comp_traitprov, "R-MAYBE-DIV": comp_maybe_div, "R-OWN": comp_own, "R-EVAL": comp_eval, "R-EQSHAPE": comp_eqshape, "R-PAIR": comp_pair, "R-FOLD": comp_fold, "R-MEMCOPY": comp_memcopy}
